@@ -325,7 +325,8 @@ example : (lookup (run gEnv {} [.eval (3, []), .eval (0, [.int 7]), .set (0, [.i
 `for trg in targets: trg[OBJ].get_value_from_key(trg[KEY])` (`St.recalcTargets`; a failing recomputation
 raises out of the loop, the remaining targets are not evaluated).  Regime of the value statements: `CI`
 states and `C02.WF` (`Ranked`, `NoCatch`, `Scoped`) – every reachable state of the thirteen-operation
-language. -/
+language, and of the fourteen-operation language with the recalculating assignment itself among the
+operations (`C02.reachable_ci_with_recalc`).  State-level two-run form: `recalc_state_is_lazy_run`. -/
 
 /-- **Recalculation = the lazy assignment, then evaluate the former leaf dependents** (the definition of
 the model, made explicit): an accepted assignment is `St.setValue` followed by the loop over
